@@ -17,6 +17,7 @@ func checkC08(c *Check) {
 	c.notificationEncode("C08.3 notification-encode")
 	c.notifSentThenTeardown("C08.2 notification-sent")
 	c.writeSites("C08.3 frames-not-interleaved")
+	c.fsmContracts("C08.2 fsm-effects")
 }
 
 // notificationEncode: code -> byte 0, subcode -> byte 1, data appended
